@@ -330,3 +330,45 @@ Theorem C01_shared_fallback_list_would_leak :
   mserve [ga; gb] 0 (bs "zzz"%string) (bs "/"%string) 1 = Some (Site 1 (bs "/"%string)).
 Proof. exact shared_list_leaks. Qed.
 Print Assumptions C01_shared_fallback_list_would_leak.
+
+(* ---- request SEQUENCES against a running process ------------------------------------------ *)
+(* serveHTTP keeps nothing between requests: for EVERY sequence of listener groups and EVERY
+   sequence of requests to them, the k-th answer is the declarative statement [spec] evaluated
+   on the k-th request's Host and path and its own listener's sites — whatever was asked before
+   (a miss on the same host, hits, other hosts, other listeners). *)
+Theorem C01_routing_is_stateless : forall groups qs k q g,
+  nth_error qs k = Some q -> nth_error groups (rq_srv q) = Some g ->
+  nth_error (serve_seq (process groups) qs) k
+    = Some (Some (spec (fst g) (snd g) (rq_host q) (rq_path q) (rq_proto q))).
+Proof. exact routing_is_stateless. Qed.
+Print Assumptions C01_routing_is_stateless.
+
+(* ... so a request gets the answer it would get as the first request of the process *)
+Theorem C01_request_history_irrelevant : forall groups pre q,
+  serve_seq (process groups) (pre ++ [q])
+    = serve_seq (process groups) pre ++ [mserve groups (rq_srv q) (rq_host q) (rq_path q) (rq_proto q)].
+Proof. exact request_history_irrelevant. Qed.
+Print Assumptions C01_request_history_irrelevant.
+
+Example C01_routing_is_stateless_nonvacuous :
+  let g : group := ([(bs "example.com/app"%string, 1); (bs "example.com/api"%string, 2); (bs "other.org"%string, 3)], []) in
+  let r h p := {| rq_srv := 0; rq_host := bs h; rq_path := bs p; rq_proto := 1 |} in
+  serve_seq (process [g]) [r "example.com" "/favicon.ico"; r "example.com" "/app/index"; r "nosuch" "/";
+                           r "EXAMPLE.com:80" "/api/v1"; r "other.org" "/app"; r "example.com" "/favicon.ico"]%string
+  = [Some (NotFound 404); Some (Site 1 (bs "/app"%string)); Some (NotFound 404);
+     Some (Site 2 (bs "/api"%string)); Some (Site 3 (bs "/"%string)); Some (NotFound 404)].
+Proof. vm_compute. reflexivity. Qed.
+
+(* what statelessness rules out: a serveHTTP that remembers the host names whose lookup found no
+   site (Match also finds none when the HOST matched and no path prefix covers the path) answers
+   404 for /app/index after one request for /favicon.ico, where the code answers with site 1 *)
+Theorem C01_unknown_host_cache_would_poison :
+  let sites := [(bs "example.com/app"%string, 1); (bs "example.com/api"%string, 2)] in
+  let q1 := (bs "example.com"%string, bs "/favicon.ico"%string, 1) in
+  let q2 := (bs "example.com"%string, bs "/app/index"%string, 1) in
+  let r q := {| rq_srv := 0; rq_host := fst (fst q); rq_path := snd (fst q); rq_proto := snd q |} in
+  serve_seq_cached (tbuild sites) default_fallbacks [] [q1; q2] = [NotFound 404; NotFound 404] /\
+  serve_seq_cached (tbuild sites) default_fallbacks [] [q2; q1; q2] = [Site 1 (bs "/app"%string); NotFound 404; NotFound 404] /\
+  serve_seq (process [(sites, [])]) [r q1; r q2] = [Some (NotFound 404); Some (Site 1 (bs "/app"%string))].
+Proof. exact unknown_host_cache_poisons. Qed.
+Print Assumptions C01_unknown_host_cache_would_poison.
